@@ -49,6 +49,8 @@ class Failure:
         self.rendered = rendered
 
     def obligation_id(self, unit):
+        if self.kind.startswith("undecided-unit"):
+            return "%s::(undecided;bounded-search-witness)" % unit
         c = re.sub(r"\s+", " ", self.clause or "").strip()
         if len(c) > 120:
             c = c[:117] + "..."
